@@ -609,7 +609,7 @@ def rand_listener(rng, kind, addr):
 
 def rand_front_args(rng):
     return [rng.randrange(3), rng.randrange(3), rng.choice([0, 0, 0, 1, 2, 2, 7]), rng.randrange(3),
-            rng.choice([0, 0, 1, 2]), rng.choice([0, 1, 1, 2, 3]), rng.choice([0, 1, 2, 2, 2, 5]),
+            rng.choice([0, 0, 1, 2, 3, 4, 4]), rng.choice([0, 1, 1, 2, 3]), rng.choice([0, 1, 2, 2, 2, 5]),
             rng.choice([0, 0, 1, 2, 13, 40, 161, 323])]
 
 
